@@ -157,6 +157,20 @@ func (m *AggModel) Tick(t int64) [][]AggLine {
 	return out
 }
 
+// Clone returns an independent copy of the model.
+func (m *AggModel) Clone() *AggModel {
+	n := *m
+	n.cells = make(map[AggCell][]AggPoint, len(m.cells))
+	for c, l := range m.cells {
+		n.cells[c] = append([]AggPoint(nil), l...)
+	}
+	n.Emitted = make(map[AggCell]int, len(m.Emitted))
+	for c, k := range m.Emitted {
+		n.Emitted[c] = k
+	}
+	return &n
+}
+
 // Advance moves the clock without a tick.
 func (m *AggModel) Advance(t int64) {
 	if t > m.Now {
@@ -322,45 +336,73 @@ func AggValueOK(printed string, accept []float64) bool {
 // future output of the model for the given function (used for state
 // merging: equal summaries => equal futures, see the comments per function).
 func AggSummary(fun string, pts []AggPoint) string {
-	f := func(v float64) string { return strconv.FormatFloat(v, 'g', -1, 64) }
+	return string(aggSummary(nil, fun, pts))
+}
+
+func aggSummary(b []byte, fun string, pts []AggPoint) []byte {
+	f := func(v float64) { b = strconv.AppendFloat(b, v, 'g', -1, 64) }
+	fl := func(vs []float64) {
+		for _, v := range vs {
+			f(v)
+			b = append(b, ' ')
+		}
+	}
 	switch fun {
 	case "count":
-		return strconv.Itoa(len(pts))
+		b = strconv.AppendInt(b, int64(len(pts)), 10)
 	case "sum": // the model folds left in arrival order: sum(prefix ++ suffix) = fold(sum(prefix), suffix)
-		return f(aggSum(pts))
+		f(aggSum(pts))
 	case "avg":
-		return f(aggSum(pts)) + "/" + strconv.Itoa(len(pts))
+		f(aggSum(pts))
+		b = append(b, '/')
+		b = strconv.AppendInt(b, int64(len(pts)), 10)
 	case "last":
-		return f(pts[len(pts)-1].Val)
-	case "max":
-		vs := aggSorted(pts)
-		return f(vs[len(vs)-1])
-	case "min":
-		return f(aggSorted(pts)[0])
-	case "delta":
-		vs := aggSorted(pts)
-		return f(vs[0]) + ".." + f(vs[len(vs)-1])
-	case "derive":
+		f(pts[len(pts)-1].Val)
+	case "max", "min", "delta":
+		lo, hi := pts[0].Val, pts[0].Val
+		for _, p := range pts {
+			lo, hi = math.Min(lo, p.Val), math.Max(hi, p.Val)
+		}
+		if fun != "max" {
+			f(lo)
+		}
+		b = append(b, '.', '.')
+		if fun != "min" {
+			f(hi)
+		}
+	case "derive": // oldest and newest timestamp and the sets of values seen at them
 		t0, t1, v0, v1 := aggDeriveEnds(pts)
-		return fmt.Sprint(t0, v0, t1, v1)
+		b = strconv.AppendInt(b, t0, 10)
+		b = append(b, ':')
+		fl(v0)
+		b = strconv.AppendInt(b, t1, 10)
+		b = append(b, ':')
+		fl(v1)
 	default: // stdev, percentiles: computed from the sorted values
-		return fmt.Sprint(aggSorted(pts))
+		fl(aggSorted(pts))
 	}
+	return b
 }
 
 // Canon renders the state canonically. full: the complete lists; otherwise
 // the per-function summaries.
 func (m *AggModel) Canon(full bool) string {
-	var b strings.Builder
-	fmt.Fprintf(&b, "now=%d", m.Now)
+	b := make([]byte, 0, 128)
+	b = append(b, "now="...)
+	b = strconv.AppendInt(b, m.Now, 10)
 	for _, c := range m.Open() {
+		b = append(b, '|')
+		b = strconv.AppendInt(b, c.Bucket, 10)
+		b = append(b, ',')
+		b = append(b, c.Key...)
+		b = append(b, '=')
 		if full {
-			fmt.Fprintf(&b, "|%d,%s=%v", c.Bucket, c.Key, m.cells[c])
+			b = append(b, fmt.Sprint(m.cells[c])...)
 		} else {
-			fmt.Fprintf(&b, "|%d,%s=%s", c.Bucket, c.Key, AggSummary(m.Fun, m.cells[c]))
+			b = aggSummary(b, m.Fun, m.cells[c])
 		}
 	}
-	return b.String()
+	return string(b)
 }
 
 func (l AggLine) String() string {
